@@ -44,6 +44,7 @@ DEFS = {
 
 SHAPES = {
     "cyc-vec": "(set 'hz-v (vector 1 2)) (append! hz-v hz-v)",
+    "cyc-vec-wide": "(set 'hz-v (vector 1)) (append! hz-v hz-v) (append! hz-v hz-v) (append! hz-v hz-v) (append! hz-v hz-v)",
     "cyc-map": "(set 'hz-v (sorted-map \"k\" 1)) (assoc! hz-v \"self\" hz-v)",
     "cyc-map-2keys": "(set 'hz-v (sorted-map)) (assoc! hz-v \"a\" hz-v) (assoc! hz-v \"b\" hz-v) (assoc! hz-v \"c\" hz-v)",
     "cyc-mutual": "(set 'hz-v (vector 1)) (set 'hz-w (sorted-map \"v\" hz-v)) (append! hz-v hz-w)",
@@ -73,6 +74,8 @@ SINKS = {
     "string-concat": "(length (string:join (list (format-string \"{}\" hz-v) \"x\") \",\"))",
     "schema-validate": "(progn (s:deftype \"hz-any\" s:any) (s:validate hz-any hz-v))",
     "macro-argument": "(progn (defmacro hz-q (x) (list 'quote x)) (eval (list 'hz-q hz-v)))",
+    "macro-result": "(progn (defmacro hz-knot () hz-v) (hz-knot))",
+    "macroexpand": "(progn (defmacro hz-knot2 () (list 'quote hz-v)) (macroexpand '(hz-knot2)))",
     "eval-form": "(eval (list 'list hz-v hz-v))",
     "quasiquote-splice": "(quasiquote (1 (unquote hz-v) (unquote-splicing (list hz-v hz-v))))",
     "concat": "(concat 'list (list hz-v) (list hz-v))",
@@ -168,7 +171,7 @@ def _run(V, work, tier):
         recipes.append(rec)
     res = run_tlc(work, "Host", "SPECIFICATION Spec\nCONSTANTS MODE = \"gen\"\n SLACK = %d\nCHECK_DEADLOCK FALSE\n" % SLACK, timeout=600, line_sink=sink)
     V.tlc(res, "Host (gen): %d recipes" % len(recipes))
-    if len(recipes) < 300:
+    if len(recipes) < 800:
         raise MachineryError("Host.tla enumerated only %d recipes" % len(recipes))
     # ---- 1. hostile programs, one process each -----------------------------------------------------------------
     trace = []
@@ -251,7 +254,7 @@ def _run(V, work, tier):
     V.coverage["reader_inputs"] = len(big) + nread
     # ---- 4. the builtin matrix ---------------------------------------------------------------------------------
     shards = 14
-    triples = 150000 if thorough else 1500
+    triples = 400000 if thorough else 1500
 
     def matrix(i):
         rec = {"id": i, "shard": i, "shards": shards, "pool": "full", "triples": triples, "seed": seed() * 100 + i}
